@@ -8,6 +8,11 @@
 (* of times, on the one instance the trace is the life of.  `base` (decimal text, *)
 (* units) is the offset of a numerical trace: samples are read, and values are   *)
 (* reported, relative to it (Aggregators.tla, shift law).                        *)
+(* `delim` is the delimiter a table was constructed with (NewTable(delim)): its   *)
+(* samples are split on that byte sequence.  `split{s, d, done0, rets, oks,       *)
+(* dones}` is one stringSplitter.Splitter{S: s, Delim: d} driven directly: Next /  *)
+(* NextOk until Done and two calls beyond, Done read after every call - judged by  *)
+(* AggSplit!Fields.                                                                *)
 (* An event the specification cannot explain is recorded in `bad` (trace id,     *)
 (* line) and the rest of that trace is skipped.                                   *)
 EXTENDS Aggregators, Json
@@ -16,8 +21,8 @@ Trace == ndJsonDeserialize("trace.ndjson")
 TrNone == {}
 TrCfg == AccCfgOf(1)
 
-VARIABLES l, tid, agg, prof, nbase, bad
-tvars == <<ctr, sub, tbl, num, acc, l, tid, agg, prof, nbase, bad>>
+VARIABLES l, tid, agg, prof, nbase, tdelim, bad
+tvars == <<ctr, sub, tbl, num, acc, l, tid, agg, prof, nbase, tdelim, bad>>
 
 Ev == Trace[l]
 IsEv(e) == l <= Len(Trace) /\ Ev.event = e /\ l' = l + 1
@@ -28,15 +33,16 @@ TReset ==
   /\ IsEv("reset")
   /\ ctr' = CtrInit /\ sub' = GridInit /\ tbl' = GridInit /\ num' = NumInit /\ acc' = AccInit
   /\ tid' = Ev.t /\ agg' = Ev.agg /\ prof' = Ev.prof /\ nbase' = BaseOfText(Ev.base)
+  /\ Len(Ev.delim) >= 1 /\ tdelim' = Ev.delim
 
 TSample ==
   /\ IsEv("sample")
   /\ CASE agg = "ctr" -> InDomain(Ev.el, 1) /\ ASampleCtr(Ev.el)
        [] agg = "sub" -> InDomain(Ev.el, 2) /\ ASampleSub(Ev.el)
-       [] agg = "tbl" -> InDomain(Ev.el, 2) /\ ASampleTbl(Ev.el)
+       [] agg = "tbl" -> InDomainD(Ev.el, 2, tdelim) /\ ASampleTblD(Ev.el, tdelim)
        [] agg = "num" -> NumParseB(Ev.el, nbase).c # "out" /\ ASampleNumB(Ev.el, nbase)
        [] agg = "acc" -> acc' = AccStep(AccCfgOf(prof), acc, Ev.el) /\ UNCHANGED <<ctr, sub, tbl, num>>
-  /\ UNCHANGED <<tid, agg, prof, nbase>>
+  /\ UNCHANGED <<tid, agg, prof, nbase, tdelim>>
 
 \* Trim returns "the number of fields trimmed": at least the selected cells that existed,
 \* at most one per row x column position
@@ -45,7 +51,7 @@ TTrim ==
   /\ Ev.ret >= Cardinality(TblTrimmed(tbl, Ev.p))
   /\ Ev.ret <= Cardinality(GridAs(tbl)) * Cardinality(GridBs(tbl))
   /\ ATrimTbl(Ev.p)
-  /\ UNCHANGED <<tid, agg, prof, nbase>>
+  /\ UNCHANGED <<tid, agg, prof, nbase, tdelim>>
 
 ObsCtrOK(o) ==
   /\ NoDup(o.items)
@@ -100,9 +106,22 @@ TObs ==
   /\ IsEv("obs")
   /\ CASE agg = "ctr" -> ObsCtrOK(Ev) [] agg = "sub" -> ObsSubOK(Ev) [] agg = "tbl" -> ObsTblOK(Ev)
        [] agg = "num" -> ObsNumOK(Ev) [] agg = "acc" -> ObsAccOK(Ev)
-  /\ AObserve /\ UNCHANGED <<tid, agg, prof, nbase>>
+  /\ AObserve /\ UNCHANGED <<tid, agg, prof, nbase, tdelim>>
 
-TStep == TReset \/ TSample \/ TTrim \/ TObs
+\* a Splitter driven directly: n = Len(F) + 2 calls, call i answers field i (then ""), ok / "not Done before
+\* the call" while a field was left, Done from the last field on; no panic
+SplitObsOK(e) ==
+  LET F == Fields(e.s, e.d)
+      n == Len(F) + 2
+  IN /\ Len(e.d) >= 1 /\ ~e.panic
+     /\ e.done0 = DoneAfter(F, 0)
+     /\ Len(e.rets) = n /\ Len(e.oks) = n /\ Len(e.dones) = n
+     /\ \A i \in 1..n : e.rets[i] = CallRet(F, i) /\ e.oks[i] = CallOk(F, i) /\ e.dones[i] = DoneAfter(F, i)
+TSplit ==
+  /\ IsEv("split") /\ agg = "split" /\ SplitObsOK(Ev)
+  /\ UNCHANGED <<ctr, sub, tbl, num, acc, tid, agg, prof, nbase, tdelim>>
+
+TStep == TReset \/ TSample \/ TTrim \/ TObs \/ TSplit
 
 RECURSIVE NextReset(_)
 NextReset(i) == IF i > Len(Trace) \/ Trace[i].event = "reset" THEN i ELSE NextReset(i + 1)
@@ -110,9 +129,9 @@ Skip ==
   /\ l <= Len(Trace) /\ ~ENABLED TStep
   /\ bad' = Append(bad, [t |-> tid, l |-> l])
   /\ l' = NextReset(l + 1)
-  /\ UNCHANGED <<ctr, sub, tbl, num, acc, tid, agg, prof, nbase>>
+  /\ UNCHANGED <<ctr, sub, tbl, num, acc, tid, agg, prof, nbase, tdelim>>
 
-TInit == AInit /\ l = 1 /\ tid = 0 /\ agg = "none" /\ prof = 0 /\ nbase = BZero /\ bad = <<>>
+TInit == AInit /\ l = 1 /\ tid = 0 /\ agg = "none" /\ prof = 0 /\ nbase = BZero /\ tdelim = DNUL /\ bad = <<>>
 TNext == (TStep /\ UNCHANGED bad) \/ Skip
 TSpec == TInit /\ [][TNext]_tvars
 
